@@ -1,6 +1,7 @@
 """C04 - read-name encoding round-trips (agreement of the tables the two halves of the codec rely on)."""
 import ast
 import gzip
+import itertools
 import os
 import re
 
@@ -514,6 +515,70 @@ def _identifier_by_interpretation(ctx):
     return (True, n, None)
 
 
+def _sample_by_interpretation(ctx):
+    """tagPysamRead evaluated on records with a cell index under `bi`, under the legacy key `BI`, with both, with none, with and without a library: the sample handed to
+    the alignment is LY_<cell index> whenever a cell index is present (whatever else the record carries), LY_BULK without one, and no sample without a library.
+    (ok, cases, witness) or None outside the interpreted subset."""
+    from ..consteval import run_function, Raised, LocalFn
+    t = ctx.fn(BASEDEMUX, 'TaggedRecord.tagPysamRead')
+    mod = ctx.ix.module(BASEDEMUX)
+    mc = {k: v for k, v in module_consts(mod, ctx.ix).items() if v is not TOP}
+    cdef = ctx.ix.cls(BASEDEMUX, 'TaggedRecord')
+    helpers = {m_.name: m_ for m_ in cdef.body if isinstance(m_, ast.FunctionDef) and m_.name.startswith('_') and not m_.name.startswith('__') and m_.name not in ('_parse_illumina_header',)}
+    n = 0
+    try:
+        for bi, BI, ly, extra in itertools.product((None, '12'), (None, '7'), (None, 'libA'), ({}, {'BC': 'ACGT', 'RX': 'TTG', 'aA': 'GGCC', 'aa': 'GGCA'}, {'BC': 'ACGT'})):
+            if ly is None and (bi or BI):
+                continue           # a record with a cell index always has its library (set by the constructor)
+            tags = dict(extra)
+            if ly:
+                tags['LY'] = ly
+            if bi:
+                tags['bi'] = bi
+            if BI:
+                tags['BI'] = BI
+            env = dict(mc)
+            for mn_, md_ in helpers.items():
+                env.setdefault('self.' + mn_, LocalFn(md_, env, bound='<self>'))
+            env['self.tags'] = dict(tags)
+            env['self.tagDefinitions'] = {}
+            rd = {}
+
+            def hook(ev, call, env_, rd=rd):
+                d = dotted(call.func) or ''
+                a = [ev.ev(x, env_) for x in call.args]
+                if d == 'self.has_tag':
+                    return a[0] in env_['self.tags']
+                if d == 'self.addTagByTag':
+                    env_['self.tags'][a[0]] = a[1] if isinstance(a[1], str) else str(a[1])
+                    return None
+                if d.endswith('hamming_distance'):
+                    return sum(1 for x, y in zip(a[0], a[1]) if x != y)
+                if d.endswith('.set_tag'):
+                    rd[a[0]] = a[1]
+                    return None
+                if d.endswith('.has_tag'):
+                    return a[0] in rd
+                if d.endswith('.get_tag'):
+                    return rd[a[0]]
+                return NotImplemented
+            try:
+                run_function(t, ['<self>', '<read>'], env=env, call_hook=hook, is_subclass=ctx.ix.is_subclass_name)
+            except Raised as r_:
+                if r_.name == 'ValueError':
+                    continue
+                return None
+            n += 1
+            cell = bi if bi is not None else BI
+            want = f'{ly}_{cell}' if cell is not None else (f'{ly}_BULK' if ly else None)
+            if rd.get('SM') != want:
+                return (False, n, {'tags of the record': tags, 'SM written': rd.get('SM'), 'SM expected': want})
+    except Exception:
+        return None
+    return (True, n, None)
+
+
+
 def _r5_identifier(ctx):
     t = ctx.fn(BASEDEMUX, 'TaggedRecord.tagPysamRead')
     res = _identifier_by_interpretation(ctx)
@@ -524,6 +589,12 @@ def _r5_identifier(ctx):
                  if ok else f'{wit}'), key='MI-by-interpretation', witness=wit, what='tagPysamRead: the molecular identifier is not barcode + UMI + corrected index for some combination of present tags')
     if res is None:
         _r5_identifier_structural(ctx, t)
+    sres = _sample_by_interpretation(ctx)
+    if sres is not None:
+        ctx.counters['interpreted_cases'] = ctx.counters.get('interpreted_cases', 0) + sres[1]
+        ctx.emit('C04-R5', sres[0], BASEDEMUX, t, f'tagPysamRead evaluated on {sres[1]} records (cell index under bi / BI / both / none, with and without library and identifying tags): sample = LY_<cell index>, LY_BULK '
+                 'without a cell index' if sres[0] else f'sample name: {sres[2]}', key='SM-format', witness=sres[2], what='tagPysamRead: the sample is not library_cellindex')
+        return
     sm = [c for c in walk_no_nested(t) if isinstance(c, ast.Call) and isinstance(c.func, ast.Attribute) and c.func.attr == 'addTagByTag' and c.args and isinstance(c.args[0], ast.Constant) and c.args[0].value == 'SM']
     sm.sort(key=lambda c: c.lineno)
     first = sm[0] if sm else t
@@ -588,6 +659,11 @@ def r7(ctx):
     # the qualities stored next to a base tag (RQ next to RX, ...) are cut with the slice of the bases: shared with C02-R1
     include(ctx, C02, [C02.r1], 'C04-R7')
     f = ctx.fn(BASEDEMUX, 'TaggedRecord.tagPysamRead')
+    sres = _sample_by_interpretation(ctx)
+    if sres is not None:
+        ctx.emit('C04-R7', sres[0], BASEDEMUX, f, f'tagPysamRead: the sample is LY_<cell index> in all {sres[1]} evaluated records that carry a cell index, whatever else they carry' if sres[0] else
+                 f'tagPysamRead: {sres[2]}', key='sample-name-iff-cell-index', witness=sres[2], what='tagPysamRead: the sample name ignores the cell index under an extra condition')
+        return
     sm = [c for c in walk_no_nested(f) if isinstance(c, ast.Call) and isinstance(c.func, ast.Attribute) and c.func.attr == 'addTagByTag' and c.args
           and isinstance(c.args[0], ast.Constant) and c.args[0].value == 'SM' and len(c.args) > 1]
     bi_calls = [c for c in sm if "self.tags['bi']" in src(c.args[1]).replace('"', "'")]
